@@ -129,6 +129,9 @@ fn tier_override(name: &str) -> Option<(Option<usize>, Option<usize>)> {
         ("mpmc_bounded/send2_vs_drain_batch2_cap1", Some(1), Some(2)),
         ("mpmc_bounded/mix_synctx_asyncrx_send2_drain_cap1", Some(1), Some(2)),
         ("mpmc_bounded/mix_asynctx_syncrx_send2_drain_cap1", Some(1), Some(2)),
+        ("mpsc_bounded/try_send_batch2_race_idle_rx_cap2", Some(2), Some(3)),
+        ("mpmc_bounded/try_send_batch2_race_idle_rx_cap2", Some(2), Some(3)),
+        ("mpmc_bounded/2p_send_batch2_each_cap2", None, Some(0)),
         // three threads on the lock-based flavours
         ("mpmc_bounded/2p1c_send1_each_cap1", None, Some(0)),
         ("mpmc_bounded/2p1c_send1_each_cap2", Some(0), Some(1)),
@@ -225,6 +228,15 @@ pub fn channel_scenarios() -> Vec<Scenario> {
             }
         }
         if fl.multi_tx() && fl.is_bounded() {
+            // L': two producers claim a run of two each into capacity 2 (the window fits one run): batch claim overshoot
+            b.add(
+                fl,
+                Shape {
+                    n_tx: 2,
+                    ..sh("try_send_batch2_race_idle_rx", Some(2), vec![tp(None, Some(0), vec![JoinAll, Drain]), tp(Some(0), None, vec![TrySendBatch(vec![11, 12])]), tp(Some(1), None, vec![TrySendBatch(vec![21, 22])])])
+                },
+            );
+            b.add(fl, Shape { n_tx: 2, ..sh("2p_send_batch2_each", Some(2), vec![tp(None, Some(0), vec![Drain]), tp(Some(0), None, vec![SendBatch(vec![11, 12])]), tp(Some(1), None, vec![SendBatch(vec![21, 22])])]) });
             // L: two try_sends race for the single slot
             b.add(
                 fl,
